@@ -367,7 +367,7 @@ pub struct Event {
 
 #[derive(Clone, Debug)]
 pub struct Violation {
-    /// "L1" | "L3" | "teardown" | "blocked"
+    /// "L1" | "L3" | "teardown"
     pub layer: &'static str,
     pub kind: String,
     pub seq: u32,
@@ -386,6 +386,7 @@ pub struct RunResult {
     pub events: Vec<Event>,
     pub violations: Vec<Violation>,
     pub blocked: bool,
+    pub blocked_what: String,
     pub max_live: u32,
     pub respawn_after_death: u32,
     pub dtor_expected: u32,
@@ -433,9 +434,12 @@ pub struct Runner {
     /// T0 is the main thread, executed inline by the runner
     main_root: bool,
     churn_counter: u32,
+    /// never park a thread in the middle of an operation (pauses and yields
+    /// of the plan are ignored)
+    no_park: bool,
 }
 
-pub const WATCHDOG_SECS: u64 = 30;
+pub const WATCHDOG_SECS: u64 = 10;
 
 type HResult<T> = Result<T, String>;
 
@@ -454,7 +458,12 @@ impl Runner {
             watchdog: Duration::from_secs(WATCHDOG_SECS),
             main_root: false,
             churn_counter: 0,
+            no_park: false,
         }
+    }
+
+    pub fn set_no_park(&mut self, on: bool) {
+        self.no_park = on;
     }
 
     pub fn set_watchdog(&mut self, secs: u64) {
@@ -526,20 +535,42 @@ impl Runner {
         self.res.violations.push(Violation { layer, kind, seq, step, detail });
     }
 
-    fn blocked(&mut self, step: u32, tid: u32, what: &str) {
+    /// A step did not hand the baton back within the watchdog period.
+    ///
+    /// If some OTHER thread is parked in the middle of an operation (in a
+    /// sink write or at a scheduling point), the likely cause is a lock of the
+    /// library held across that point: the schedule is infeasible, not the
+    /// property violated (C19 speaks about which mode is used, not about
+    /// progress).  The run is abandoned as UNDECIDED; the process must end
+    /// (threads are stuck) and the rest of the shard runs without mid-operation
+    /// parking.  With nobody parked it is a genuine hang: harness error.
+    fn blocked(&mut self, step: u32, tid: u32, what: &str) -> HResult<()> {
+        let parked: Vec<u32> = self
+            .threads
+            .iter()
+            .filter(|(t, th)| **t != tid && th.pending.is_some())
+            .map(|(t, _)| *t)
+            .collect();
+        if parked.is_empty() {
+            return Err(format!(
+                "T{} did not return from {} within {} s although no thread is parked mid-operation (hang)",
+                tid,
+                what,
+                self.watchdog.as_secs()
+            ));
+        }
         self.res.blocked = true;
+        self.res.blocked_what = format!(
+            "T{} did not hand the baton back within {} s during {} while T{:?} is parked in the middle of an \
+             operation (a lock held across a sink callback / scheduling point?)",
+            tid,
+            self.watchdog.as_secs(),
+            what,
+            parked
+        );
         let e = self.blank(step, tid, EvKind::Skip("blocked"));
         self.push(e);
-        self.violation(
-            "blocked",
-            what.to_string(),
-            step,
-            format!(
-                "T{} did not hand the baton back within {} s during {}: its \
-                 progress depends on another (parked) thread",
-                tid, self.watchdog.as_secs(), what
-            ),
-        );
+        Ok(())
     }
 
     fn check_read(&mut self, step: u32, tid: u32, o: &Outcome, what: &str) {
@@ -565,8 +596,12 @@ impl Runner {
     /// Spawn the root thread from the runner (which never touches fpdec).
     fn spawn_root(&mut self, plan: &Plan) -> HResult<()> {
         if plan.root_is_main {
-            // T0 = the thread we are on.  Nothing to spawn.
+            // T0 = the thread we are on.  Nothing to spawn.  The runner
+            // executes T0's operations inline, without a watchdog, so no
+            // other thread may be parked mid-operation meanwhile (a library
+            // lock held across the park would hang the runner itself).
             self.main_root = true;
+            self.no_park = true;
             self.threads.insert(
                 0,
                 Th {
@@ -668,7 +703,7 @@ impl Runner {
                     ))
                 }
                 None => {
-                    self.blocked(step, tid, "spawn");
+                    self.blocked(step, tid, "spawn")?;
                     return Ok(());
                 }
             }
@@ -706,7 +741,7 @@ impl Runner {
         let reply = match self.recv()? {
             Some(r) => r,
             None => {
-                self.blocked(step, tid, "op");
+                self.blocked(step, tid, "op")?;
                 return Ok(());
             }
         };
@@ -941,7 +976,7 @@ impl Runner {
         let reply = match self.recv()? {
             Some(r) => r,
             None => {
-                self.blocked(step, tid, if set.is_some() { "set" } else { "read" });
+                self.blocked(step, tid, if set.is_some() { "set" } else { "read" })?;
                 return Ok(());
             }
         };
@@ -1044,8 +1079,18 @@ impl Runner {
             return Ok(());
         }
         self.threads.get_mut(&tid).unwrap().pending = Some(p);
-        let y = yields.to_vec();
-        let cmd = if die { Cmd::Die(op.clone(), y) } else { Cmd::Op(op.clone(), y) };
+        let mut y = yields.to_vec();
+        let mut op = op.clone();
+        if self.no_park {
+            y.clear();
+            if let Op::Fmt { pauses, .. } = &mut op {
+                pauses.clear();
+            }
+            if let Some(p) = self.threads.get_mut(&tid).and_then(|t| t.pending.as_mut()) {
+                p.op = op.clone();
+            }
+        }
+        let cmd = if die { Cmd::Die(op, y) } else { Cmd::Op(op, y) };
         self.drive_op(step, tid, cmd)
     }
 
@@ -1057,7 +1102,7 @@ impl Runner {
             }
             self.churn_counter += 1;
             let child = 1_000_000 + self.churn_counter;
-            self.do_spawn(step, tid, child, Api::Std, false)?;
+            self.do_spawn(step, tid, child, Api::Builder, false)?;
             if !self.threads.contains_key(&child) {
                 break;
             }
